@@ -61,6 +61,7 @@ type vDuplex struct {
 	matched       string
 	matchedReg    any
 	stop          chan struct{}
+	sweepOnMatch  bool // the expiry sweeper removes the matched registration between the transport's lookup and MarkActive
 }
 
 func newVDuplex(remote, local net.Addr, cuts []int, pace time.Duration) *vDuplex {
